@@ -1,7 +1,121 @@
 import Driver.Common
-open Drv
+import KatdalModel.Model.Telstate
+open Np Drv Telstate
 
-/-- stub driver for C18: replaced when the property's model lands -/
-def step (_line : String) : String := "bad-op"
+/-! Line protocol of the C18 model driver.  Strings are restricted by the harness to
+    `[A-Za-z0-9_.-]`; the empty string is written `^`.
+
+    store  = entries joined by `|`, each `key~val` (`-` for the empty store)
+    val    = `S:str` | `L:a,b` (list of strings, `L:` empty) | `N:int` | `C:<ci>`
+    ci     = arrays joined by `+`, each `name@prefix@4x2x3@2.2/2/3`
+    prefixes = `,`-joined
+
+    vcs <fuel> <store> <prefixes> <cb> <stream>      -> prefixes | DIVERGE
+    order <cb> <streams> <prefixes>                   -> specOrder
+    get <store> <prefixes> <key>                      -> val | NONE
+    shorten <prefixes> <key>                          -> string
+    sensor <store> <prefixes> <mutable keys> <name>   -> val | NONE          (mirror of the sensor dict)
+    l0 <fuel> <store> <query> <kwargs>                -> `<prefixes> <cb> <sn>` | E:…
+         query = `k=v&k=v` | `-` ; kwargs likewise with value `~` for None and `^` for ''
+    chunkinfo <fuel> <store> <prefixes> <cb> <sn> <0|1>   -> ci | E:…
+    qual <fuel> <store> <prefixes> <cb> <sn> <s>      -> 0 | 1 -/
+
+def toKey (s : String) : Key := if s = "^" then [] else s.toList
+def ofKey (k : Key) : String := if k.isEmpty then "^" else String.ofList k
+
+def parseKeys (s : String) : List Key := if s = "-" || s = "" then [] else (s.splitOn ",").map toKey
+def showKeys (l : List Key) : String := if l.isEmpty then "-" else ",".intercalate (l.map ofKey)
+
+def parseArr (s : String) : Option (Key × ArrInfo) :=
+  match s.splitOn "@" with
+  | [name, pre, shape, chunks] => do
+    let shape ← if shape = "" then some [] else (shape.splitOn "x").mapM (·.toNat?)
+    let chunks ← if chunks = "" then some [] else
+      (chunks.splitOn "/").mapM fun d => if d = "" then some [] else (d.splitOn ".").mapM (·.toNat?)
+    pure (toKey name, { prefix_ := toKey pre, shape, chunks })
+  | _ => none
+
+def parseCi (s : String) : Option ChunkInfo :=
+  if s = "" then some [] else (s.splitOn "+").mapM parseArr
+
+def showArr (kv : Key × ArrInfo) : String :=
+  let sh := "x".intercalate (kv.2.shape.map toString)
+  let ch := "/".intercalate (kv.2.chunks.map fun d => ".".intercalate (d.map toString))
+  s!"{ofKey kv.1}@{ofKey kv.2.prefix_}@{sh}@{ch}"
+
+def showCi (ci : ChunkInfo) : String := "+".intercalate (ci.map showArr)
+
+def parseVal (s : String) : Option Val :=
+  if s.startsWith "S:" then some (.str (toKey (s.drop 2).toString))
+  else if s.startsWith "L:" then some (.strs (let r := (s.drop 2).toString; if r = "" then [] else (r.splitOn ",").map toKey))
+  else if s.startsWith "N:" then ((s.drop 2).toString.toInt?).map Val.num
+  else if s.startsWith "C:" then (parseCi (s.drop 2).toString).map Val.info
+  else none
+
+def showVal : Val → String
+  | .str s => s!"S:{ofKey s}"
+  | .strs l => "L:" ++ ",".intercalate (l.map ofKey)
+  | .num n => s!"N:{n}"
+  | .info ci => "C:" ++ showCi ci
+
+def parseStore (s : String) : Option Store :=
+  if s = "-" then some [] else
+  (s.splitOn "|").mapM fun e =>
+    match e.splitOn "~" with
+    | [k, v] => (parseVal v).map fun v => (toKey k, v)
+    | _ => none
+
+def parseQuery (s : String) : Option (List (Key × Key)) :=
+  if s = "-" then some [] else
+  (s.splitOn "&").mapM fun e =>
+    match e.splitOn "=" with
+    | [k, v] => some (toKey k, toKey v)
+    | _ => none
+
+def parseKwargs (s : String) : Option (List (Key × KwVal)) :=
+  if s = "-" then some [] else
+  (s.splitOn "&").mapM fun e =>
+    match e.splitOn "=" with
+    | [k, v] => some (toKey k, if v = "~" then none else some (toKey v))
+    | _ => none
+
+def showOptVal : Option Val → String
+  | none => "NONE"
+  | some v => showVal v
+
+def step (line : String) : String :=
+  match line.splitOn " " with
+  | ["vcs", fuel, store, pre, cb, s] =>
+    match fuel.toNat?, parseStore store with
+    | some f, some st =>
+      match viewCaptureStream f st (parseKeys pre) (toKey cb) (toKey s) with
+      | none => "DIVERGE"
+      | some v => showKeys v
+    | _, _ => "bad-op"
+  | ["order", cb, streams, pre] => showKeys (specOrder (toKey cb) (parseKeys streams) (parseKeys pre))
+  | ["get", store, pre, key] =>
+    match parseStore store with
+    | some st => showOptVal (get st (parseKeys pre) (toKey key))
+    | none => "bad-op"
+  | ["shorten", pre, key] => ofKey (shortenKey (parseKeys pre) (toKey key))
+  | ["sensor", store, pre, keys, name] =>
+    match parseStore store with
+    | some st => showOptVal (sensorRead st (parseKeys pre) (parseKeys keys) (toKey name))
+    | none => "bad-op"
+  | ["l0", fuel, store, query, kwargs] =>
+    match fuel.toNat?, parseStore store, parseQuery query, parseKwargs kwargs with
+    | some f, some st, some q, some kw =>
+      showExcept (fun (r : List Key × Key × Key) => s!"{showKeys r.1} {ofKey r.2.1} {ofKey r.2.2}")
+        (fromUrlView f st q kw)
+    | _, _, _, _ => "bad-op"
+  | ["chunkinfo", fuel, store, pre, cb, sn, up] =>
+    match fuel.toNat?, parseStore store with
+    | some f, some st => showExcept showCi (sourceChunkInfo f st (parseKeys pre) (toKey cb) (toKey sn) (up = "1"))
+    | _, _ => "bad-op"
+  | ["qual", fuel, store, pre, cb, sn, s] =>
+    match fuel.toNat?, parseStore store with
+    | some f, some st => if qualifies f st (parseKeys pre) (toKey cb) (toKey sn) (toKey s) then "1" else "0"
+    | _, _ => "bad-op"
+  | _ => "bad-op"
 
 def main : IO Unit := Drv.loop step
